@@ -12,6 +12,11 @@ from .simcuda import Monitor, Proxy, SimCuda, SimLauncher, ThreadState, T_NONE, 
 KERNELS = {'wave_assign_gpu': 'assign', 'wave_eval_gpu': 'eval', 'wave_capture_gpu': 'capture', 'ppo_to_ppi_gpu': 'ppo2ppi'}
 
 
+def typed_int(v, t):
+    """v as a Python int or as the NumPy integer scalar type named t."""
+    return int(v) if t in (None, 'int') else getattr(np, t)(int(v))
+
+
 def fitting_dtype(name, vmax):
     """The requested integer dtype if it can hold vmax, else int64 (a user would not choose a dtype that cannot hold the values)."""
     return name if vmax <= np.iinfo(name).max else 'int64'
@@ -219,7 +224,7 @@ class Harness:
             gpu = cfg['cls'] == 'gpu'
             sched = cfg.get('sched') or {'mode': 'order', 'kind': 'canonical'}
             self.repo_launcher = gpu and sched.get('mode') == 'repo'
-            kw = dict(sims=int(cfg.get('sims', self.case['sims'])), c_caps=self.caps(), a_ctrl=self.a_ctrl(), c_reuse=bool(cfg.get('c_reuse')), strip_forks=bool(cfg.get('strip_forks')))
+            kw = dict(sims=typed_int(cfg.get('sims', self.case['sims']), (self.case.get('argforms') or {}).get('sims')), c_caps=self.caps(), a_ctrl=self.a_ctrl(), c_reuse=bool(cfg.get('c_reuse')), strip_forks=bool(cfg.get('strip_forks')))
             cls = ws.WaveSimCuda if gpu else ws.WaveSim
             sim = cls(self.circuit, self.delays_array(), **kw)
             self.sim = sim
@@ -454,8 +459,9 @@ class Harness:
                             loc = int(meta.c_locs[meta.ppi_offset + i])
                             mon.tag_prop[loc:loc + 4, :] = mon.prop_id
                     res.count('repeated_propagations')
-                if k: sim.c_prop(sims=int(k), seed=seed)
-                else: sim.c_prop(seed=seed)
+                af = self.case.get('argforms') or {}
+                if k: sim.c_prop(sims=typed_int(k, af.get('k')), seed=typed_int(seed, af.get('seed')))
+                else: sim.c_prop(seed=typed_int(seed, af.get('seed')))
         finally:
             self.in_prop = False
         mon.k_lanes = None
